@@ -108,7 +108,7 @@ PivotCase ==
       code == SumInts([j \in Rows |-> IF mask[j] THEN Pow(2, j - 1) ELSE 0])
       idx == SumInts([j \in Rows |-> (p[j] - 1) * Pow(N, j - 1)]) * Pow(2, N) + code
   IN [k |-> "mat", fam |-> "gjp", n |-> N, idx |-> idx, a |-> A, det |-> det,
-      sing |-> SingClass(A, det), tri |-> IsUpperTri(A), spd |-> FALSE, L |-> <<>>,
+      sing |-> SingClass(A, det), tri |-> IsUpperTri(A), spd |-> FALSE, sym |-> IsSymmetric(A), L |-> <<>>,
       inv |-> RM2(InvFrom(adj, det)), kap |-> R2(KappaFrom(A, adj, det)),
       sol |-> <<RV2(SolveFrom(A, Ones(N), det)), RV2(SolveFrom(A, Ramp(N), det))>>,
       subs |-> IF mask = FullMask THEN <<>> ELSE <<SubRecord(A, <<>>, code)>>,
